@@ -1,6 +1,8 @@
 package jschema
 
 import (
+	"strings"
+
 	"github.com/jsightapi/jsight-schema-core/notations/jschema/ischema"
 	"github.com/jsightapi/jsight-schema-core/notations/jschema/ischema/constraint"
 )
@@ -24,7 +26,7 @@ func UserTypeNamesFromTypeConstraint(node ischema.Node) []string {
 	}
 
 	name := typ.Bytes().Unquote().String()
-	if name[0] == '@' {
+	if strings.HasPrefix(name, "@") {
 		return []string{name}
 	}
 
@@ -45,7 +47,7 @@ func UserTypeNamesFromTypesListConstraint(node ischema.Node) []string {
 	res := make([]string, 0, list.Len())
 
 	for _, name := range list.Names() {
-		if name[0] == '@' {
+		if strings.HasPrefix(name, "@") {
 			res = append(res, name)
 		}
 	}
